@@ -378,6 +378,9 @@ func (in *Interp) runCloser(v Value, sig signal) signal {
 		}
 	}
 	in.feat("close-handler-run")
+	hco := in.curCo()
+	hco.inCloser++
+	defer func() { hco.inCloser-- }()
 	_, cerr := in.protectRaw(func() []Value {
 		h := in.metaOf(v, "__close")
 		if h == nil {
